@@ -18,7 +18,7 @@ Wake-up: the request socket and the health-check listener, whose handlers read a
 a backlog larger than one batch keeps raising events until it is drained.
 """
 NOT_DECIDED = "termination of the receive loop beyond its batch_size bound (depends on the kernel queue); allocation failure; panics inside dependencies on inputs not covered by the panicking-precondition table"
-TRUSTED = ["external callees outside the panicking-precondition table do not panic (list in evidence)", "mio/std socket calls return Err instead of panicking"]
+TRUSTED = ["external callees outside the panicking-precondition table do not panic (list in evidence)", "mio/std socket calls return Err instead of panicking", "one UDP send/receive transfers at most 65,535 bytes (16-bit length field)"]
 ASSUMPTIONS = ["the release configuration is analysed (-C debug-assertions=off, overflow checks kept as obligations): debug_assert!() and cfg(debug_assertions) code is compiled out and not part of the decided behaviour", "a statistics counter does not wrap (2^32 events from one address within one reporting window / 2^64 total)",
                "the system clock is not before 1970 (C11's quantifier)", "memory allocation succeeds"]
 
